@@ -13,6 +13,17 @@ import (
 	"verif/report"
 )
 
+// treeConfigs: full history trees (no merging of histories) over a core alphabet.
+func treeConfigs() []seqCfg {
+	recent := epoch.Unix() - 10
+	initial := fmt.Sprintf(`{"d":{"secret":{"Value":"%s","Version":1},"lastAccess":"%d"},"x":{"secret":{"Value":"%s","Version":1},"lastAccess":"%d"}}`,
+		b64(Value("d", 1)), recent, b64(Value("x", 1)), recent)
+	return []seqCfg{
+		{Name: "tree-two-secrets-server-changes-failures-polls-restart", Expiry: 0, Declared: []string{"d"}, Names: []string{"d", "x"}, Initial: initial, NoDedup: true,
+			Events: []string{"put:d", "back:d", "failnext:d", "put:x", "back:x", "failnext:x", "poll", "restart"}},
+	}
+}
+
 func seqConfigs() []seqCfg {
 	old := epoch.Unix() - 1000
 	recent := epoch.Unix() - 10
@@ -66,13 +77,22 @@ func (f *seqFailures) flush(rep *report.Report, section string) {
 
 // runSeq runs the sequential store search for the given property.
 func runSeq(env *report.Env, rep *report.Report, prop string, depthQuick, depthThorough int, withRestartCheck bool) {
+	runSeqCfgs(env, rep, prop, depthQuick, depthThorough, withRestartCheck, seqConfigs())
+	// the same alphabet as a full tree (histories never merged), one level shallower
+	full := seqConfigs()[2]
+	full.Name = "tree-" + full.Name
+	full.NoDedup = true
+	runSeqCfgs(env, rep, prop, 4, 5, false, []seqCfg{full})
+}
+
+func runSeqCfgs(env *report.Env, rep *report.Report, prop string, depthQuick, depthThorough int, withRestartCheck bool, cfgs []seqCfg) {
 	depth := depthQuick
 	if env.Thorough() {
 		depth = depthThorough
 	}
-	for _, cfg := range seqConfigs() {
+	for _, cfg := range cfgs {
 		sec := rep.Add(&report.Section{Name: "seq-" + cfg.Name, Engine: "seqx", Exhaustive: true, Extra: map[string]int64{},
-			Rule:  "BFS over event histories {server put/activate-back/fail-next, Secret, read, LookupSecret per name; poll, restart-from-cache, clock +50s, clock +101s} of a real Store with a scripted service and a virtual clock; successor = replay on a fresh Store; state = store dump + service state + cache document + clock + handle set; reference model stepped in lock-step; non-trivial = transitions into a new state",
+			Rule:  "BFS over event histories (default alphabet: server put/activate-back/fail-next, Secret, read, LookupSecret per name; poll, restart-from-cache, clock +50s, clock +101s; 'tree' sections: a core alphabet with histories never merged) of a real Store with a scripted service and a virtual clock; successor = replay on a fresh Store; state = store dump + service state + cache document + clock + handle set; reference model stepped in lock-step; non-trivial = transitions into a new state",
 			Bound: fmt.Sprintf("depth %d, %d events", depth, len(events(cfg)))})
 		fs := &seqFailures{}
 		dir := hx.Scratch("storeseq-")
@@ -131,7 +151,8 @@ func TestCheck(t *testing.T) {
 			break
 		}
 		if env.Shard == 0 {
-			runSeq(env, rep, "C11", 4, 6, false)
+			runSeq(env, rep, "C11", 5, 6, false)
+			runSeqCfgs(env, rep, "C11", 6, 7, false, treeConfigs())
 		}
 		runSched(t, env, rep, map[string]bool{"C11": true}, "sched-polls-and-refreshes", pollScenarios(), 2, 3)
 		runSched(t, env, rep, map[string]bool{"C11": true}, "sched-ticker-cadence-virtual-time", cadenceScenarios(), 2, 3)
